@@ -54,6 +54,12 @@ class RuleResult:
 
     def fail(self, finding):
         self.obligations += 1
+        msg = finding.message
+        # the code is not in the shape the rule is defined on: the rule cannot decide (never reported as a violation)
+        if msg.startswith('expected ') or ': expected ' in msg[:90]:
+            self.inconclusive.append('%s: %s at %s is not in the shape the rule is defined on (%s)' % (
+                self.rule, finding.function, finding.loc, msg[:200]))
+            return
         self.findings.append(finding)
         self.functions.add(finding.function)
 
